@@ -124,6 +124,8 @@ def register(reg, prog):
     CTX = 'aiocoap.protocol:Context'
     reg.declare_class('Context', CTX, fields={'serversite': Opt(Ref('SiteI'))})
     reg.declare_class('SiteI', 'aiocoap.interfaces:Resource', opaque=True)
+    # the server site is an object of the application: a class with __len__ / __bool__ (a container-like root resource) may be false
+    reg.unknown_truthiness = set(getattr(reg, 'unknown_truthiness', ())) | {'SiteI'}
     reg.externals['SiteI.render_to_pipe'] = lambda ex, st, args, kw, node: (st.log.append(('site_render_to_pipe',) + tuple(args)), [(st, VNone())])[1]
 
     def crtp_exit(ex, s, entry, env, result):
